@@ -804,7 +804,7 @@ def named_missing(details):
     return req, groups
 
 
-def oracle_ruleset(rs, results, skips, exc_ids, metadata, mdkeys, b, limit, order, participants=None):
+def oracle_ruleset(rs, results, skips, exc_ids, metadata, mdkeys, b, limit, order, participants=None, ordered=True):
     """results: {type: [entry dict]}, skips: [dict], exc_ids: set of rule ids with a recorded exception;
     participants: ids of the rules that took part in an evaluation (default: all); order: the rules in the order
     they were first evaluated (metadata: the last writer wins).  Multiplicities are counted (lists, not sets): a
@@ -835,6 +835,7 @@ def oracle_ruleset(rs, results, skips, exc_ids, metadata, mdkeys, b, limit, orde
                                 % (s.get("rule_fqdn"), n, b[rs.comps[i]]), None))
     md_expect = {}
     mdk_expect = {}
+    md_writes, mdk_writes = {}, {}       # every value written per key (ordered=False: sub-graphs ran concurrently)
     pos = {i: n for n, i in enumerate(order)}
     for r in sorted(case["rules"], key=lambda r: pos.get(r["id"], 10 ** 6)):
         name = rs.names[r["id"]]
@@ -848,9 +849,13 @@ def oracle_ruleset(rs, results, skips, exc_ids, metadata, mdkeys, b, limit, orde
                 merged = 1
                 det = expected_details(cls, want[2], want[3], limit)
                 md_expect.update({k: v for k, v in det.items() if k != "type"})
+                for k, v in det.items():
+                    if k != "type":
+                        md_writes.setdefault(k, []).append(v)
             elif cls.response_type == "metadata_key":
                 merged = 1
                 mdk_expect[want[2]] = dict(want[3])["value"]
+                mdk_writes.setdefault(want[2], []).append(dict(want[3])["value"])
         total = n_res + n_skip + n_exc + merged
         exp_total = 0 if want[0] == "nothing" else 1
         finding = None
@@ -912,6 +917,17 @@ def oracle_ruleset(rs, results, skips, exc_ids, metadata, mdkeys, b, limit, orde
         # a skip entry that names no rule: attributed above as a missing skip entry (known finding) — nothing to add
         pass
     mdf = None
+    if not ordered:
+        # concurrent sub-graphs: any of the written values may be the last one
+        for k, vs in md_writes.items():
+            if k not in metadata or metadata[k] not in vs:
+                out.append(("metadata %r: expected one of %r, got %r" % (k, vs, metadata.get(k)), None))
+        for k in metadata:
+            if k not in md_writes:
+                out.append(("metadata has %r which no metadata response set" % k, None))
+        if set(mdkeys) != set(mdk_writes) or any(mdkeys[k] not in mdk_writes[k] for k in mdkeys if k in mdk_writes):
+            out.append(("metadata keys %r, expected one value per key out of %r" % (mdkeys, mdk_writes), None))
+        return out
     for k, v in md_expect.items():
         if k not in metadata or metadata[k] != v:
             out.append(("metadata %r: expected %r (last writer in run order), got %r" % (k, v, metadata.get(k)), mdf))
@@ -1103,42 +1119,58 @@ def oracle_formatter(rs, unfiltered, shown, f, same_order=True):
 # --------------------------------------------------------------------------- generation of rule sets
 
 EXC_KINDS = ["skip", "skip", "content", "calledProc", "crash", "crash", "timeout", "blacklisted"]
+# (incremental, parallel) besides the serial default: sub-graph after sub-graph; sub-graphs on a real thread pool; the
+# parallel flag on a serial evaluator
+RUN_MODES = [(True, False), (True, True), (False, True)]
 SHOW_CHOICES = ["fail", "info", "pass", "none", "metadata", "fingerprint"]
 
 
-def gen_case(rng, quick, mode=None):
+def gen_case(rng, quick, mode=None, islands=False):
     """mode None: one rule set.  "disjoint" / "dependent": the rules are split into groups A and B for histories of
     several evaluations; a rule depends only on bases and on earlier rules of its own group (dependent: B rules
-    may also depend on A rules)."""
-    nb = rng.randint(1, 4)
+    may also depend on A rules).  islands: 2-6 DISJOINT sub-graphs — every base and rule belongs to one island and
+    depends only on members of it; some rules have no dependency at all and are a sub-graph of their own."""
+    n_islands = rng.randint(2, 6) if islands else 1
+    nb = rng.randint(n_islands, n_islands + 3) if islands else rng.randint(1, 4)
     bases = []
     for i in range(nb):
         bases.append({"id": i, "how": rng.choice(["seed", "seed", "run", "run", "none", "none", "seednone", "raise", "skipraise"]),
-                      "ctype": rng.choice(["component", "condition", "combiner"])})
+                      "ctype": rng.choice(["component", "condition", "combiner"]),
+                      "island": (i if i < n_islands else rng.randrange(n_islands)) if islands else 0})
     static = [b["id"] for b in bases if b["how"] in ("seed", "seednone", "raise", "skipraise")]
     none_valued = [b["id"] for b in bases if b["how"] in ("none", "seednone")]
-    nr = rng.randint(1, 10 if quick else 24)
+    nr = rng.randint(n_islands if islands else 1, 10 if quick else 24)
     rules = []
+    all_static, all_none_valued = static, none_valued
     # a limit shared by the case: small, so that payloads sit around it
     limit = rng.choice([65535, 65535, 65535, 65535, 420, 330, 260, 200, 150, 90])
     for j in range(nr):
         rid = nb + j
         lower = list(range(rid))
         group = None
+        island = 0
+        if islands:
+            # every island gets a rule; one rule in five depends on nothing and is a sub-graph of its own
+            island = j if j < n_islands else (None if rng.random() < 0.2 else rng.randrange(n_islands))
+            lower = [] if island is None else ([x["id"] for x in bases if x["island"] == island]
+                                               + [x["id"] for x in rules if x.get("island") == island])
+            static = [x for x in all_static if x in lower]
+            none_valued = [x for x in all_none_valued if x in lower]
         if mode:
             group = "A" if (j == 0 or rng.random() < 0.5) else "B"
             lower = list(range(nb)) + [x["id"] for x in rules
                                        if x["group"] == group or (mode == "dependent" and group == "B")]
-        r = {"id": rid, "group": group, "module": rng.choice(MODULES), "requires": [], "alo": [], "optional": [], "ignore": [],
+        r = {"id": rid, "group": group, "island": island, "module": rng.choice(MODULES), "requires": [], "alo": [], "optional": [],
+             "ignore": [],
              "enabled": rng.random() > 0.1,
              "tags": rng.choice([None, [], ["t1"], ["t1", "t2", "t1"], ["sec", "é"]]),
              "links": rng.choice([None, None, {}, {"kcs": ["https://a/1"]}, {"kcs": ["u1", "u2"], "jira": []}])}
-        for _ in range(rng.choice([0, 1, 1, 2, 3])):
+        for _ in range(rng.choice([0, 1, 1, 2, 3]) if lower else 0):
             if rng.random() < 0.3:
                 r["alo"].append([rng.choice(lower) for _ in range(rng.randint(1, 3))])
             else:
                 r["requires"].append(rng.choice(lower))
-        if rng.random() < 0.3:
+        if lower and rng.random() < 0.3:
             r["optional"] = [rng.choice(lower) for _ in range(rng.randint(1, 2))]
         if none_valued and rng.random() < 0.45:
             # dependencies that are PRESENT with value None: required, optional, and at-least-one groups in which a
@@ -1150,7 +1182,7 @@ def gen_case(rng, quick, mode=None):
             elif k == 1:
                 r["optional"] = r["optional"] + [nv]
             else:
-                other = rng.choice(list(range(nb)))
+                other = rng.choice([x for x in lower if x < nb] or [nv])
                 r["alo"].append([nv, other] if k == 2 else [other, nv])
         if rng.random() < 0.12:
             deps = r["requires"] + [d for g in r["alo"] for d in g] + r["optional"]
@@ -1186,8 +1218,9 @@ def gen_case(rng, quick, mode=None):
         rng.shuffle(show)
         fmts.append({"kind": kind, "missing": rng.random() < 0.5, "fail_only": rng.random() < 0.2, "show": show,
                      "render": render})
+    modes = {n: rng.choice(RUN_MODES) for n in ("InsightsEvaluator", "JsonFormat", "YamlFormat")}
     return {"limit": limit, "store_skips": rng.random() < 0.4, "bases": bases, "rules": rules, "fmts": fmts,
-            "scenarios": UNIFORM_SCENARIOS + [gen_scenario(rng)]}
+            "scenarios": UNIFORM_SCENARIOS + [gen_scenario(rng)], "modes": modes}
 
 
 def gen_config(rng, case, default=None):
@@ -1282,7 +1315,110 @@ def account(rs, fails, label, view, results, mdkeys, exc_ids, b, limit, order, m
         fails.append((label + ": " + desc, finding))
 
 
+def spec_subgraphs(rs):
+    """number of connected sub-graphs of the rule set's graph (dependencies among its own keys), spec side"""
+    parent = {i: i for i in rs.comps}
+
+    def find(x):
+        while parent[x] != x:
+            parent[x] = parent[parent[x]]
+            x = parent[x]
+        return x
+    for i, c in rs.comps.items():
+        for d in dr.get_delegate(c).dependencies:
+            j = rs.ids.get(d)
+            if j is not None:
+                parent[find(i)] = find(j)
+    return len(set(find(i) for i in rs.comps))
+
+
+def unordered_accounting(rs, label, resp, ref):
+    """the same entries under the same headings and the same skips as the serial run, as multisets (a different run
+    mode evaluates in a different order)"""
+    out = []
+    a, r0 = results_from_response(resp), results_from_response(ref)
+    ca = {t: sorted(J(plain_entry(x)) for x in es) for t, es in a.items()}
+    c0 = {t: sorted(J(plain_entry(x)) for x in es) for t, es in r0.items()}
+    if ca != c0:
+        out.append("%s lists %r, the serial run lists %r" % (
+            label, {t: sorted(str(x.get("component")) for x in es) for t, es in a.items()},
+            {t: sorted(str(x.get("component")) for x in es) for t, es in r0.items()}))
+    sa = sorted(J(cdict(x)) for x in resp.get("skips", []))
+    s0 = sorted(J(cdict(x)) for x in ref.get("skips", []))
+    if sa != s0:
+        out.append("%s has skips %r, the serial run %r" % (label, resp.get("skips"), ref.get("skips")))
+    ka = set((resp.get("system") or {}).get("metadata", {}))
+    k0 = set((ref.get("system") or {}).get("metadata", {}))
+    if ka != k0:
+        out.append("%s has metadata keys %r, the serial run %r" % (label, sorted(ka), sorted(k0)))
+    return out
+
+
+def run_mode(rs, fails, cls_name, inc, par, graph, reference, ref_excs, lines=None, impl=None, kinds=None):
+    """one evaluator / formatter in one run mode on `graph` (None = the default group graph): the accounting oracle,
+    the comparison with the serial run, and (SingleEvaluator, incremental, not parallel) the model"""
+    case = rs.case
+    limit = case["limit"]
+    label = "%s(incremental=%s).process(%s, parallel=%s)" % (cls_name, inc, "graph" if graph is not None else "None", par)
+    b = rs.broker()
+    buf = io.StringIO()
+    try:
+        if cls_name in ("JsonFormat", "YamlFormat"):
+            e = make_evaluator(cls_name, b, buf)
+            e.incremental = inc            # the formatters do not take the flag in their constructor
+        else:
+            e = EVALUATORS[cls_name](b, stream=buf, incremental=inc)
+        raw = e.process(graph, parallel=par)
+    except Exception as ex:
+        fails.append(("%s raised %s: %s" % (label, type(ex).__name__, ex), None))
+        return None
+    probs = []
+    mdkeys = as_dict(label, "metadata_keys", e.metadata_keys, probs)
+    resp, p2 = sanitize_response(label + ", get_response()", raw, mdkeys)
+    probs += p2
+    views = [("get_response", resp)]
+    if cls_name in ("JsonFormat", "YamlFormat"):
+        try:
+            shown = json.loads(buf.getvalue()) if cls_name == "JsonFormat" else yaml.unsafe_load(buf.getvalue())
+            if not isinstance(shown, dict):
+                raise ValueError("printed %r" % buf.getvalue()[:80])
+            shown, p3 = sanitize_response(label + ", the printed document", shown, mdkeys)
+            probs += p3
+            views.append(("printed", shown))
+        except Exception as ex:
+            fails.append(("%s: the printed output cannot be read back: %s" % (label, ex), None))
+    for d in probs:
+        fails.append((d, None))
+    st = rs.canon_state(e, b)
+    exc_ids = set(int(i) for i in st["excs"])
+    order = [i for i in b.vorder if i in set(rs.rule_ids)]
+    for vname, v in views:
+        account(rs, fails, "%s, %s" % (label, vname), v, results_from_response(v), mdkeys, exc_ids, b, limit, order,
+                ordered=not par)
+        if reference is not None:
+            for desc in guarded(fails, label, unordered_accounting, rs, "%s, %s" % (label, vname), v, reference):
+                fails.append((desc, None))
+    if ref_excs is not None and exc_ids != ref_excs:
+        fails.append(("%s records exceptions against rules %r, the serial run against %r"
+                      % (label, sorted(exc_ids), sorted(ref_excs)), None))
+    counts = {}
+    for i in order:
+        counts[i] = counts.get(i, 0) + 1
+    never = [rs.names[i] for i in rs.rule_ids if not counts.get(i)]
+    if never:
+        fails.append(("%s never reached %d of the %d rules of the graph (a sub-graph was left out): %s"
+                      % (label, len(never), len(rs.rule_ids), ", ".join(never[:6])), None))
+    rs.stats["mode:%s inc=%d par=%d" % (cls_name, inc, par)] = rs.stats.get("mode:%s inc=%d par=%d" % (cls_name, inc, par), 0) + 1
+    if lines is not None and cls_name == "SingleEvaluator" and inc and not par and graph is not None:
+        # the model: register, then the sub-graphs one after the other = one run over the concatenated order
+        lines += ["hnew", "hreg\t0", "hrun\t" + (",".join("%d:1" % i for i in order) or "-"), "hstate"]
+        impl += ["ok", "ok", "ok", st]
+        kinds += ["decl", "decl", "decl", "state:incremental"]
+    return resp, exc_ids
+
+
 def _evaluate(rs, case, limit, lines, impl, kinds, fails, unfiltered, order0):
+    serial_excs = []
     with Limit(limit):
         runs = [(SingleEvaluator, None)] + [(InsightsEvaluator, sc) for sc in case.get("scenarios", UNIFORM_SCENARIOS[:1])]
         for E, sc in runs:
@@ -1327,6 +1463,8 @@ def _evaluate(rs, case, limit, lines, impl, kinds, fails, unfiltered, order0):
                                                    "branch": bool(ev.branch_info)}})
                 kinds.append("istate:" + E.__name__)
             exc_ids = set(int(i) for i in st["excs"])
+            if E is SingleEvaluator:
+                serial_excs.append(exc_ids)
             # the oracle looks at what get_response() hands out (and broker.exceptions), not at the evaluator's fields;
             # decoration: format_response puts the release into the metadata
             account(rs, fails, name + ".get_response", resp, results_from_response(resp), mdkeys, exc_ids, b, limit, b.vorder,
@@ -1341,6 +1479,16 @@ def _evaluate(rs, case, limit, lines, impl, kinds, fails, unfiltered, order0):
             lines.append("resp\t1\t%s" % ",".join(enc(s) for s in ["rule", "info", "pass", "none", "metadata", "fingerprint"]))
             impl.append(canon_report(rs, raw))
             kinds.append("report:" + E.__name__)
+        # ---- run modes: every class incrementally / with a pool, against the serial run's accounting
+        k = spec_subgraphs(rs)
+        rs.stats["subgraphs:%s" % (k if k < 7 else "7+")] = 1
+        ref_excs = None
+        if serial_excs:
+            ref_excs = serial_excs[0]
+        for cls_name, modes in [("SingleEvaluator", RUN_MODES)] + [
+                (n, [tuple(m)]) for n, m in sorted(case.get("modes", {"InsightsEvaluator": (True, False)}).items())]:
+            for inc, par in modes:
+                run_mode(rs, fails, cls_name, inc, par, rs.graph, unfiltered, ref_excs, lines, impl, kinds)
         for f in case["fmts"]:
             opts = "%s formatter (options %s%s%s%s)" % (f["kind"], "-m " if f["missing"] else "", "-F " if f["fail_only"] else "",
                                                        "-r " if f.get("render") else "",
@@ -1727,6 +1875,54 @@ RERUN_WITNESS = {
 }
 
 
+# --------------------------------------------------------------------------- graph=None: the default group graph, in a child
+
+def default_graph_child():
+    """runs in a fresh interpreter (the default group graph is every component loaded in the process): one rule set,
+    every evaluator class, serial / incremental / incremental on a pool, all with graph=None"""
+    case = json.load(sys.stdin)
+    fails = []
+    stats = {}
+    try:
+        rs = RuleSet(case)
+        with Limit(case["limit"]):
+            for cls_name in sorted(EVALUATORS):
+                ref = run_mode(rs, fails, cls_name, False, False, None, None, None)
+                for inc, par in RUN_MODES:
+                    run_mode(rs, fails, cls_name, inc, par, None, ref[0] if ref else None, ref[1] if ref else None)
+        stats = dict(rs.stats)
+        stats["default-graph:components"] = len(dr.COMPONENTS[dr.GROUPS.single])
+        stats["default-graph:subgraphs"] = len(list(dr.get_subgraphs(dr.COMPONENTS[dr.GROUPS.single])))
+    except Exception as ex:
+        import traceback
+        fails.append(("the default-graph run raised %s: %s (%s)" % (type(ex).__name__, ex,
+                                                                    traceback.format_exc().strip().splitlines()[-3].strip()), None))
+    sys.stdout.write("\n@@C12CHILD@@" + json.dumps({"fails": fails, "stats": stats}, default=repr) + "\n")
+
+
+def spawn_default_graph(case):
+    import subprocess
+    from harness.common import VERIF
+    code = ("import sys; sys.path[:0] = [%r, %r]; sys.dont_write_bytecode = True; "
+            "from harness import c12; c12.default_graph_child()" % (VERIF, REPO))
+    p = subprocess.Popen([sys.executable, "-c", code], stdin=subprocess.PIPE, stdout=subprocess.PIPE, stderr=subprocess.STDOUT)
+    p.stdin.write(json.dumps(case).encode("utf-8"))
+    p.stdin.close()
+    return p
+
+
+def collect_default_graph(p, timeout=300):
+    try:
+        out = p.stdout.read().decode("utf-8", "replace")
+        p.wait(timeout=timeout)
+    except Exception as ex:
+        return {"fails": [["the default-graph child did not finish: %s" % ex, None]], "stats": {}}
+    for line in out.splitlines():
+        if line.startswith("@@C12CHILD@@"):
+            return json.loads(line[len("@@C12CHILD@@"):])
+    return {"fails": [["the default-graph child printed no result (exit %s): %s" % (p.returncode, out[-600:]), None]], "stats": {}}
+
+
 # --------------------------------------------------------------------------- known finding witness
 
 WITNESS_CASE = {
@@ -1839,6 +2035,12 @@ def run(chk):
                  "are configuration histories: apply_default_enabled + apply_configs(c1) before the rules are defined, then "
                  "dr.set_enabled, then one or two more configurations with exact-name, name-prefix and module-prefix entries "
                  "carrying enabled / tags / links (config:* counts)")
+    chk.rule += ("; run modes: every rule set is also evaluated with incremental=True (sub-graph after sub-graph), with "
+                 "incremental=True on the evaluator's own thread pool, and with parallel=True on a serial evaluator — all three "
+                 "for SingleEvaluator, one random mode each for InsightsEvaluator / JsonFormat / YamlFormat — and must account "
+                 "like the serial run; 55% of the plain rule sets consist of 2-6 disjoint islands plus dependency-free rules "
+                 "(subgraphs:* counts); graph=None (the default group graph) is evaluated in fresh child interpreters, every "
+                 "class in every mode (default-graph * counts)")
     chk.assumptions = [
         "the body of a rule is a fixed action (it does not look at its arguments); argument binding is C02's subject",
         "repr() of str is modelled for ASCII exactly and takes code points >= 0xa1 other than U+00AD as printable; values inside responses are None/bool/int/str/list of str",
@@ -1875,6 +2077,14 @@ def run(chk):
     if problems:
         chk.failure("insights-run -f yaml -S pass (YamlFormatterAdapter): " + "; ".join(problems),
                     {"kind": "yaml-adapter"})
+
+    # ---- graph=None (the default group graph): children, started now and collected at the end
+    n_child = 3 if quick else 24
+    child_cases = [dict(gen_case(rng, quick, islands=True), fmts=[]) for _ in range(n_child)]
+    children = []
+    for i, c in enumerate(child_cases):
+        if i < 6:
+            children.append((c, spawn_default_graph(c)))
 
     # ---- 2. str(dict) rendering
     cases, lines, impl = [], [], []
@@ -1987,7 +2197,7 @@ def run(chk):
     for idx in range(n_sets + len(corpus)):
         # the configuration histories come first (apply_configs walks every component loaded so far)
         case = corpus[idx] if idx < len(corpus) else (
-            gen_config_case(rng, quick) if idx - len(corpus) < n_conf else gen_case(rng, quick))
+            gen_config_case(rng, quick) if idx - len(corpus) < n_conf else gen_case(rng, quick, islands=rng.random() < 0.55))
         rs = RuleSet(case)
         lines, impl, kinds, fails = evaluate(rs)
         segments.append((case, rs, len(all_lines), lines, impl, kinds))
@@ -2057,6 +2267,8 @@ def run(chk):
                       "istate": "insights-decoration-state"}[name]
             if k == "state:history":
                 stream = "history-state"
+            if k == "state:incremental":
+                stream = "incremental-state"
             s = n_cmp.setdefault(stream, [0, 0, None])
             s[0] += 1
             if d is not None:
@@ -2078,6 +2290,22 @@ def run(chk):
         chk.stream(stream, n, bad)
         if bad:
             chk.tie_broken("correspondence:" + stream, "%d of %d answers differ" % (bad, n), first)
+    # ---- 8. the default-graph children
+    pending = list(child_cases[len(children):])
+    while children:
+        c, proc = children.pop(0)
+        res = collect_default_graph(proc)
+        if pending:
+            nxt = pending.pop(0)
+            children.append((nxt, spawn_default_graph(nxt)))
+        for desc, finding in res["fails"]:
+            chk.failure(desc, {"kind": "default-graph", "case": c}, finding=finding)
+        for k, v in res["stats"].items():
+            if k.startswith("default-graph:"):
+                chk.extra[k] = v
+            else:
+                chk.count("default-graph " + k, v)
+        chk.case(("default-graph", J(c)), True)
     hs = [x for x in segments if x[0].get("kind") == "history"]
     if hs:
         chk.sample({"history": {k: v for k, v in hs[0][0].items() if k != "case"}, "rules": len(hs[0][0]["case"]["rules"]),
@@ -2168,6 +2396,12 @@ def replay(data):
         bad = bool(replay_ruleset(c["case"])[0])
     elif kind == "history":
         bad = bool(replay_history(c)[0])
+    elif kind == "default-graph":
+        res = collect_default_graph(spawn_default_graph(c["case"]))
+        for desc, finding in res["fails"]:
+            print("oracle:", str(desc)[:1200], "[known finding %s]" % finding if finding else "")
+            if finding is None:
+                bad = True
     elif kind == "yaml-adapter":
         problems, info = regression_yaml_adapter()
         print("observed:", info)
